@@ -49,6 +49,39 @@ Proof.
   - intros t H. rewrite print_tokens_tree, parse_tokens_build. apply build_tree_ok. exact H.
 Qed.
 
+(* ---- the whole pipeline for a described tree: text / API -> depth list -> spend info ---- *)
+Section EndToEnd.
+Variables leaf hash : Type.
+Variable leafH : leaf -> hash.
+Variable branchH : hash -> hash -> hash.
+Variables key okey parity : Type.
+Variable tweak : key -> option hash -> okey * parity.
+Variable tweak_check : okey -> parity -> key -> hash -> bool.
+Hypothesis branchH_comm : forall a b, branchH a b = branchH b a.
+Hypothesis tweak_law : forall k r, tweak_check (fst (tweak k (Some r))) (snd (tweak k (Some r))) k r = true.
+
+Theorem end_to_end : forall (ik : key) (t : tree leaf), height leaf t <= 128 ->
+  exists dl si cbs,
+    parse_tokens leaf (tokens_of_tree leaf t) = TOk dl /\
+    api_build leaf t = TOk dl /\
+    tree_of_depths leaf dl = Some t /\
+    from_tr leaf hash leafH branchH key okey parity tweak ik (Some dl) = TOk si /\
+    (si_okey _ _ _ _ _ si, si_parity _ _ _ _ _ si) = tweak ik (Some (root leaf hash leafH branchH t)) /\
+    control_blocks leaf hash key okey parity si = TOk cbs /\
+    map fst cbs = map snd (depths_of_tree leaf t) /\
+    Forall (fun lc => cb_verify leaf hash leafH branchH key okey parity tweak_check
+                        (si_okey _ _ _ _ _ si) (fst lc) (snd lc) = true) cbs.
+Proof.
+  intros ik t Hh.
+  destruct (depths_rt leaf) as [Hc [_ [Hok _]]].
+  destruct (Hok t Hh) as [_ [Hparse Hapi]].
+  destruct (commit leaf hash leafH branchH key okey parity tweak tweak_check branchH_comm tweak_law
+              ik (depths_of_tree leaf t) t (Hc t) Hh) as [si [cbs [H1 [H2 [_ [H4 [H5 H6]]]]]]].
+  exists (depths_of_tree leaf t), si, cbs.
+  repeat split; try assumption. apply Hc.
+Qed.
+End EndToEnd.
+
 (* ---- concrete instances (non-vacuity) ---- *)
 Fixpoint chainR (d : nat) (i : N) : tree N :=   (* right chain of depth d, leaves i, i+1, ... *)
   match d with 0 => Leaf i | S d' => Node (Leaf i) (chainR d' (i + 1)%N) end.
